@@ -3,6 +3,7 @@ package main
 // Symbolic state, fresh names, merging, obligations.
 
 import (
+	"regexp"
 	"fmt"
 	"go/ast"
 	"go/token"
@@ -234,6 +235,12 @@ func (fv *FuncVerifier) oblige(st *State, kind, text, goal string) {
 	base := fv.name + "/" + kind + "/" + normText(text)
 	k := fv.occ[base]
 	fv.occ[base] = k + 1
+	if rx := fv.contract.Flags["unclaimed"]; rx != "" {
+		if re, err := regexp.Compile(rx); err == nil && re.MatchString(fmt.Sprintf("%s#%d", base, k)) {
+			fv.note("obligation not claimed (contract flag unclaimed): " + fmt.Sprintf("%s#%d", base, k))
+			return
+		}
+	}
 	o := &Obligation{Name: fmt.Sprintf("%s#%d", base, k), Kind: kind, Goal: goal, PC: st.pc, NAssume: len(fv.assumes), NDecl: len(fv.decls), Func: fv.name, Text: text, fv: fv, Anc: map[int]bool{0: true}}
 	for a := range st.anc {
 		o.Anc[a] = true
